@@ -184,8 +184,7 @@ Proof.
     cbn [app]. destruct HR as [H1 H2]. split.
     + intros ->. destruct (H1 eq_refl) as (E & D & _). injection D as D1 D2 D3. repeat split; assumption.
     + exact H2.
-  - unfold initialize. destruct strict.
-    { split; [discriminate|]. intros _. apply prefix_nil. }
+  - unfold initialize.
     destruct (Nat.eqb (length initres) 5).
     2:{ split; [discriminate|]. intros _. cbn. exists (reps_sig (Z.to_nat nrep) (Z.to_nat ngen) li (p_tmax st) (p_rep st)). reflexivity. }
     match goal with |- context [iter _ _ ?s] => specialize (HR s); destruct (iter _ _ s) as [[st' evs] ok] end.
